@@ -22,3 +22,6 @@ History/HistSpec.vos History/HistSpec.vok History/HistSpec.required_vos: History
 History/HistProofs.vo History/HistProofs.glob History/HistProofs.v.beautified History/HistProofs.required_vo: History/HistProofs.v Base/Util.vo Base/HashSig.vo History/HistModel.vo History/HistSpec.vo
 History/HistProofs.vio: History/HistProofs.v Base/Util.vio Base/HashSig.vio History/HistModel.vio History/HistSpec.vio
 History/HistProofs.vos History/HistProofs.vok History/HistProofs.required_vos: History/HistProofs.v Base/Util.vos Base/HashSig.vos History/HistModel.vos History/HistSpec.vos
+Properties/C03.vo Properties/C03.glob Properties/C03.v.beautified Properties/C03.required_vo: Properties/C03.v Base/Util.vo Base/HashSig.vo History/HistModel.vo History/HistSpec.vo History/HistProofs.vo
+Properties/C03.vio: Properties/C03.v Base/Util.vio Base/HashSig.vio History/HistModel.vio History/HistSpec.vio History/HistProofs.vio
+Properties/C03.vos Properties/C03.vok Properties/C03.required_vos: Properties/C03.v Base/Util.vos Base/HashSig.vos History/HistModel.vos History/HistSpec.vos History/HistProofs.vos
